@@ -30,6 +30,7 @@ import re
 import sys
 
 VERIF = os.environ.get("VERIF_ROOT", "/verif")
+KROOT = os.environ.get("VERIF_KANI_ROOT", os.path.join(VERIF, "kani"))
 
 CFG_ON = "#[cfg(any(kani, proguard_verif))]"
 CFG_OFF = "#[cfg(not(any(kani, proguard_verif)))]"
@@ -142,7 +143,7 @@ def main():
                     other.append(f"{os.path.relpath(p, root)}:{i}: {line.strip()}")
 
     for rel, hm in HARNESS_MODS.items():
-        hp = os.path.join(VERIF, "kani", "harness", hm)
+        hp = os.path.join(KROOT, "harness", hm)
         if not os.path.exists(hp):
             continue
         p = os.path.join(root, rel)
@@ -155,7 +156,7 @@ def main():
     lib = os.path.join(root, "src/lib.rs")
     with open(lib, "a") as fh:
         fh.write(
-            f'\n{CFG_ON}\n#[path = "{VERIF}/kani/support/mod.rs"]\npub(crate) mod verif_support;\n'
+            f'\n{CFG_ON}\n#[path = "{KROOT}/support/mod.rs"]\npub(crate) mod verif_support;\n'
         )
         fh.write(
             f"\n{CFG_OFF}\npub(crate) mod verif_support {{\n    pub mod util {{\n"
@@ -165,7 +166,7 @@ def main():
             "                self.filter_map(Result::ok)\n            }\n        }\n"
             "        impl<I: Iterator> OkOnlyExt for I {}\n    }\n}\n"
         )
-        pinned = os.path.join(VERIF, "pinned", "mod.rs")
+        pinned = os.path.join(KROOT, "pinned", "mod.rs")
         if os.path.exists(pinned):
             fh.write(f'\n#[cfg(kani)]\n#[path = "{pinned}"]\npub(crate) mod verif_pinned;\n')
 
